@@ -10,7 +10,7 @@ from harness import core, py2lean, instantiate
 from harness.core import Outcome, f2b, b2f
 
 ID = "C11"
-LEAN_TARGETS = ["BeyondVerif.Props.C11", "BeyondVerif.Props.C11Mask", "BeyondVerif.Props.C11MaskLife", "BeyondVerif.Props.C11Names", "BeyondVerif.Witness.C11"]
+LEAN_TARGETS = ["BeyondVerif.Props.C11", "BeyondVerif.Props.C11Handover", "BeyondVerif.Props.C11Mask", "BeyondVerif.Props.C11MaskLife", "BeyondVerif.Props.C11Names", "BeyondVerif.Witness.C11"]
 THEOREMS = [
     "BeyondVerif.C11.earth_constants",
     "BeyondVerif.C11.station_on_ellipsoid_partial",
@@ -29,6 +29,12 @@ THEOREMS = [
     "BeyondVerif.C11.station_origin_maps_to_zero",
     "BeyondVerif.C11.topo_round_trip",
     "BeyondVerif.C11.station_inertial_velocity",
+    "BeyondVerif.C11.station_from_to",
+    "BeyondVerif.C11.handover_through_parent",
+    "BeyondVerif.C11.handover_is_enu_components",
+    "BeyondVerif.C11.handover_spherical",
+    "BeyondVerif.C11.handover_to_itself",
+    "BeyondVerif.C11.handover_chain",
     "BeyondVerif.C11.create_station_from_degrees",
     "BeyondVerif.C11.range_per_leg",
     "BeyondVerif.C11.measures_are_spherical_components",
@@ -57,7 +63,10 @@ LEVEL_TEXT = ("Lean theorems over R about formulas translated from the Python so
               "matrix expression of orient.TopocentricOrientation with rot2/rot3 of utils/matrix.py, forms._cartesian_to_spherical, the four "
               "measures.*.from_orbit value expressions, the Earth constants): for all lat, lon, alt the station lies on the ellipsoid a, b=a(1-f) "
               "at height alt along the ellipsoid normal; the matrix columns are north, west, up of the ENU triad (orthonormal, det +1); range, "
-              "elevation, azimuth(=-theta) and range-rate equal the ENU quantities for every target; Range = r*(len(path)-1); get_mask (loop "
+              "elevation, azimuth(=-theta) and range-rate equal the ENU quantities for every target — also a target whose state arrives in the frame of ANOTHER station "
+              "(Frame.transform station -> station modelled as the code combines it: product of the two rotations, difference of the two centre offsets turned into the "
+              "target orientation) and is handed on through any number of stations: its coordinates at the last station are those of the direct change from the Earth-fixed frame; "
+              "Range = r*(len(path)-1); get_mask (loop "
               "modelled statement for statement, its formulas — the reduction modulo 2 pi, the scan test, the wrap x0, the returned expression — "
               "translated from the source) equals the piecewise-linear interpolant of the table, the 2 pi value serving at 0, for all strictly increasing "
               "tables ending at 2 pi and all azimuths; the way from the table GIVEN to the table read is inside the model: the `mask=` handling of "
@@ -68,13 +77,13 @@ LEVEL_TEXT = ("Lean theorems over R about formulas translated from the Python so
               "the new coordinates, other names unaffected); a longitude L and L +- 360 deg give the same position and axes.")
 LEVEL_NOTE = ("R -> double gap covered only by tolerance-bounded correspondence; the control flow of get_mask (extraction refuses another statement shape), "
               "the attribute semantics of station.mask (plain attribute: checked on the class bodies), Python truth values / np.asarray of the mask argument, "
-              "frame-change plumbing (centre offset, inverse) and expand() are hand-modelled and tied by correspondence (real station objects driven through "
+              "frame-change plumbing (centre offset, inverse, the walk station -> parent -> station of both graphs) and expand() are hand-modelled and tied by correspondence (real station objects driven through "
               "random creation arguments and operation histories against the compiled state machine); the ellipsoid's equatorial radius in constants.py is 6378136.3 m, not the "
               "WGS-84 value (known finding); Lean kernel + propext/Classical.choice/Quot.sound; py2lean translator and harness trusted")
 TECHNIQUE = "Lean 4 proof (ring/field_simp/trig identities; list induction over the mask scan loop) over formulas regenerated from the Python AST; differential correspondence"
 TRUSTED = [
     "harness/py2lean.py + the extraction code of harness/props/C11.py: translate the source expressions into Generated/StationGeo{F,R}.lean on every run",
-    "lean/templates/Station.tpl (hand-written: frame change M^-1 (r - s) with M^-1 = M^T, control flow of the get_mask scan loop, the state machine of station.mask, "
+    "lean/templates/Station.tpl (hand-written: frame change M^-1 (r - s) with M^-1 = M^T, station -> station change M_B^T M_A x + M_B^T s_A - M_B^T s_B, control flow of the get_mask scan loop, the state machine of station.mask, "
     "the registry of station names (hooks, links and frames.dynamic keyed by name, each creation overriding), expand()), tied by the correspondence run",
     "the hand-written semantic primitives of the generated mask path (MASK_PRELUDE in harness/props/C11.py: Python's bool() of None / sequences / ndarrays, np.asarray of a sequence of two rows) and the encoding of a 2xN table as a list of columns",
     "numpy / libm double arithmetic vs R: tolerance 1e-9 relative (angles 1e-10 rad scaled by conditioning)",
@@ -102,7 +111,7 @@ OPEN = ["coordinates given as int8/uint8/int16/uint16 numpy arrays are converted
         "the ellipsoid has the WGS-84 flattening but the EGM-96 equatorial radius 6378136.3 m: stations are 0.7 m closer to the geocentre than WGS-84 coordinates say (known finding C11-station-ellipsoid-radius); all theorems are stated for the constants as they are in constants.py"]
 RULE = ("correspondence: stations on a lat/lon/alt grid (all quadrants, near-polar) + random, created through create_station from coordinates of 14 numeric kinds "
         "(Python/numpy ints and floats, tuples, lists, arrays, mixed) with the model fed the exact values in degrees (op create + every station-frame op); targets from 1 km to lunar distance in ITRF with velocities; ops geo / topom / "
-        "topo (copy(frame=station, form='spherical')) / meas (the four measures, paths of 2-4 nodes) / sta2itrf / expand / mask (random tables of 1-72 points incl. "
+        "topo (copy(frame=station, form='spherical')) / hand (a state given in the frame of the previous station under the same parent, of the station itself, of a second station at the same coordinates, changed directly to the station's frame) / meas (the four measures, paths of 2-4 nodes) / sta2itrf / expand / mask (random tables of 1-72 points incl. "
         "first azimuth 0, regular grids, tables violating the convention, azimuths in [-4pi,4pi], exact hits, multiples of 2pi, the middle of every segment incl. the last one) / "
         "maskrun (a station created with mask= None / omitted / [] / () / list / tuple / rows of arrays / numpy scalars / int elevations / ndarray, keyword or positional, through "
         "create_station or TopocentricFrame, parent frame default/WGS84/ITRF/PEF/TIRF, equatorial or not, then a history of assignments (4 array layouts), None, in-place column writes, "
@@ -112,6 +121,8 @@ RULE = ("correspondence: stations on a lat/lon/alt grid (all quadrants, near-pol
         "non-trivial = generic input (not an edge constant); "
         "distinct = distinct request line. oracle: independent ENU computation in extended precision on the real API, ellipsoid membership/normal, rest in ITRF/PEF/TIRF, "
         "omega x r and finite differences in inertial frames, measures vs ENU quantities, "
+        "the same look angles / axes / four measures for targets handed to the station in the frame of another station (the previous stations of the sweep with all their options, other parent frame, "
+        "a second station at the same coordinates, an equatorial station, the station itself; cartesian / spherical / cylindrical form; directly or through 1-2 further stations; station addressed as object or by name), "
         "station position/axes for every numeric kind of coordinates incl. narrow numpy dtypes, mask vs independent interpolation for tables assigned, given at creation "
         "(12 kinds of object x 4 entry points, round robin), re-assigned, written in place; parent frames; equatorial stations; longitude L vs L +- 360 k; "
         "histories of stations re-created under names in use (each live name vs ENU at its last coordinates after every creation)")
@@ -685,6 +696,117 @@ def check_target(out, st, inp_s, a, f, lat, lon, alt, r, v, date, npath, skind="
                      dict(inp, path_len=npath), observed=val, expected=exp[nm])
 
 
+SOURCE_FORMS = ["cartesian", "spherical", "cartesian", "spherical", "cylindrical"]
+
+
+def source_kind(src, st, src_rec, inp_s):
+    """in which kind of frame the target is handed to station `st`: computed from the two stations"""
+    if src is st:
+        return "same-station"
+    if src_rec.get("equatorial"):
+        return "equatorial-station"
+    if PARENT_NAME[src_rec.get("parent", "default")] != PARENT_NAME[inp_s.get("parent", "default")]:
+        return "other-station-other-parent"
+    if list(src_rec["latlonalt_deg_m"]) == list(inp_s["latlonalt_deg_m"]):
+        return "twin-station"
+    return "other-station"
+
+
+def station_record(st, parent="default", equatorial=False):
+    """what is needed to create the station again (replay)"""
+    rec = {"latlonalt_deg_m": list(st.c11_deg), "coords_kind": st.c11_kind}
+    if parent != "default":
+        rec["parent"] = parent
+    if equatorial:
+        rec["equatorial"] = True
+    return rec
+
+
+def check_given_in(out, st, inp_s, a, f, lat, lon, alt, r, v, date, npath, src, src_rec, form, via=(), skind="", tkind="", pframe="ITRF", by_name=False):
+    """"ANY target": the target (r, v in the Earth-fixed frame `pframe` of station `st`) reaches `st` in the frame of ANOTHER station `src` —
+    as the points yielded by src.visibility() do, or sv.copy(frame=src) —, in form `form`, possibly handed on through the stations `via`
+    first; point.copy(frame=st, form="spherical"), the cartesian axes and the four measures of that point vs the ENU reference at `st`"""
+    import numpy as np
+    from beyond.orbits import StateVector
+    from beyond.utils.measures import Range, Azimut, Elevation, Doppler
+    lat_d, lon_d = inp_s["latlonalt_deg_m"][:2]
+    ref = enu_reference(a, f, lat, lon, alt, r, v)
+    sv = StateVector(r + v, date, "cartesian", pframe)
+    sing = [0.0, 0.0]       # conditioning of the spherical form near the zenith / nadir of a frame on the way (position, velocity): no defect, a property of the coordinates
+
+    def held(pt):
+        c = np.array(pt.copy(form="cartesian"), dtype=float)
+        rk = float(np.linalg.norm(c[:3]))
+        if pt.form.name == "spherical" and rk > 0:
+            cphi = max(math.hypot(c[0], c[1]) / rk, 1e-12)
+            sing[0] += 8e-16 * rk / cphi
+            sing[1] += 8e-16 * float(np.linalg.norm(c[3:])) / cphi ** 2
+        return rk
+    def route(form):
+        sing[:] = [0.0, 0.0]
+        pt = sv.copy(frame=src, form=form)
+        pts = [pt]
+        for vst, _rec in via:
+            pt = pt.copy(frame=vst)
+            pts.append(pt)
+        return pts
+    pts = route(form)
+    if form != "cartesian" and not all(np.all(np.isfinite(np.array(pt, dtype=float))) for pt in pts + [pts[-1].copy(frame=st)]):
+        # exactly at the zenith of a frame on the way (or of the station itself: a frame change keeps the form) the angular rates of the
+        # spherical / cylindrical form are 0/0: that target is handed over in cartesian form
+        form = "cartesian"
+        pts = route(form)
+    point = pts[-1]
+    reach0 = max(held(pt) for pt in pts)
+    skd = source_kind(src, st, src_rec, inp_s)
+    inp = dict(inp_s, target_itrf=r + v, date=str(date), given_in=dict(src_rec, form=form), via=[rec for _v, rec in via], path_len=npath)
+    if by_name:
+        inp["by_name"] = True
+    t = point.copy(frame=st.name if by_name else st, form="spherical")
+    rg = float(ref["range"])
+    hz = max(float(ref["horiz"]), 1e-30)
+    cosel = hz / rg
+    # rounding: each frame on the way holds the point at the length of its own position vector there
+    reach = max([reach0, float(np.linalg.norm(r)), rg]) + 6.4e6
+    inertial = skd == "equatorial-station" or any(rec.get("equatorial") for _v, rec in via) or skd == "other-station-other-parent" or any(PARENT_NAME[rec.get("parent", "default")] != pframe for _v, rec in via)
+    noise = 8e-9 + (60e-16 if inertial else 12e-16) * reach * (1 + len(via)) + sing[0]
+    sp = float(np.linalg.norm(v))
+    tol_r = 1e-6 + 2e-15 * rg + noise
+    tol_az = 1e-10 + noise / hz
+    tol_el = 1e-10 + min(1e-15 / max(cosel, 1e-300), 5e-8) + noise / rg
+    tol_rr = 1e-9 + 1e-12 * sp + 2 * noise * sp / rg + sing[1] + (1e-9 + 1e-12 * 7.3e-5 * reach if inertial else 0.0)
+    out.count(key=("given-in", lat_d, lon_d, tuple(r), tuple(src_rec["latlonalt_deg_m"]), form, len(via)), kind="topo-given-in-" + skd, form=form, via=len(via), target=tkind, station=skind,
+              az_quadrant=int(((float(ref["az"]) % TWO_PI) // (math.pi / 2))), above=bool(ref["el"] > 0))
+    sfx = f"-target-given-in-{skd}-frame"
+    txt = f" when the target is given in the frame of {skd.replace('-', ' ')} ({form} form" + (f", handed on through {len(via)} more station(s)" if via else "") + ")"
+    if not abs(float(t.r) - rg) <= tol_r:
+        out.fail("topo-range" + sfx, "range in the station frame differs from the ENU range" + txt, inp, observed=float(t.r), expected=rg)
+    if not abs(float(t.phi) - float(ref["el"])) <= tol_el:
+        out.fail("topo-elevation" + sfx, "phi in the station frame differs from the ENU elevation" + txt, inp, observed=float(t.phi), expected=float(ref["el"]))
+    if cosel > 1e-7 and not angdiff(-float(t.theta), ref["az"]) <= tol_az:
+        out.fail("topo-azimuth" + sfx, "-theta in the station frame differs from the ENU azimuth (clockwise from north)" + txt, inp, observed=-float(t.theta), expected=float(ref["az"]))
+    if not abs(float(t.r_dot) - float(ref["rr"])) <= tol_rr:
+        out.fail("topo-range-rate" + sfx, "r_dot in the station frame differs from d.v/|d| computed in the Earth-fixed frame" + txt, inp, observed=float(t.r_dot), expected=float(ref["rr"]))
+    c = np.array(point.copy(frame=st, form="cartesian"))[:3]
+    e, n, u = (float(q) for q in ref["enu"])
+    if not np.allclose(c, [n, -e, u], rtol=0, atol=tol_r):
+        out.fail("topo-axes" + sfx, "cartesian coordinates in the station frame are not (north, west, up)" + txt, inp, observed=list(map(float, c)), expected=[n, -e, u])
+    path = tuple([st] + ["sat", st, "relay"][: npath - 1])
+    exp = {"Range": rg * (npath - 1), "Azimut": -float(ref["az"]), "Elevation": float(ref["el"]), "Doppler": float(ref["rr"])}
+    for cls in (Range, Azimut, Elevation, Doppler):
+        m = cls(path, date, 0.0).from_orbit(point)
+        nm = cls.__name__
+        out.count(key=("meas-given-in", nm, npath, lat_d, tuple(r), tuple(src_rec["latlonalt_deg_m"]), form), kind="measure-" + nm + "-given-in-" + skd, path_len=npath)
+        val = float(m.value)
+        ok = {"Range": abs(val - exp[nm]) <= tol_r * (npath - 1),
+              "Azimut": cosel <= 1e-7 or angdiff(val, exp[nm]) <= tol_az,
+              "Elevation": abs(val - exp[nm]) <= tol_el,
+              "Doppler": abs(val - exp[nm]) <= tol_rr}[nm]
+        if not (ok and m.date == point.date and m.path == path):
+            out.fail("measure-" + nm + sfx, f"{nm}.from_orbit value is not the topocentric quantity (range once per leg; azimuth stored as theta = -azimuth)" + txt,
+                     inp, observed=val, expected=exp[nm])
+
+
 def check_station_state(out, st, inp_s, a, f, lat, lon, alt, date, ref0, skind="", ckind="", fd_frame=None, pframe="ITRF"):
     """one station: on the ellipsoid at its height along the normal, at the reference position, at rest in the Earth-fixed frames,
     omega x r in the frames of the rotation axis, velocity = d(position)/dt in inertial frame `fd_frame`"""
@@ -1100,6 +1222,8 @@ def _oracle(ctx, widened, out):
     n_st = 400 if big else 60
     n_tg = 40 if big else 16
     wgs_done = 0
+    pool = []           # the last stations of the sweep stay alive: targets are handed over from THEIR frames to the station under test
+    n_ho = 10 if big else 6
     for k in range(n_st):
         lat_d, lon_d, alt, skind = gen_station(rng, k)
         ckind = "float-tuple" if rng.random() < 0.4 else rng.choice(WIDE_KINDS)
@@ -1143,6 +1267,33 @@ def _oracle(ctx, widened, out):
                 out.fail("topo-from-inertial-" + fr, "station-frame coordinates of an inertial state differ from ENU applied to its Earth-fixed image",
                          dict(inp_s, frame=fr, state=x, date=str(date)), observed=[float(t.r), float(t.theta), float(t.phi), float(t.r_dot)],
                          expected=[rg, -float(ref["az"]), float(ref["el"]), float(ref["rr"])])
+        # --- "ANY target": the target reaches the station in the frame of another station (one of the previous stations of the sweep, whatever
+        #     its options; a second station at the very same coordinates; an equatorial station; the station itself), in any form, directly or
+        #     handed on through further stations, the station addressed as an object or by its name
+        sources = [(p_st, p_rec) for p_st, p_rec in pool] + [(st, dict(inp_s, same_object=True))]
+        extras = []
+        try:
+            if k % 4 == 1:
+                tw = new_station(lat_d, lon_d, alt, kind=ckind, parent=parent)
+                extras.append((tw, station_record(tw, parent)))
+            if k % 4 == 3:
+                eq_par = rng.choice(PARENTS)
+                eq = new_station(*gen_station(rng)[:3], parent=eq_par, equatorial=True)
+                extras.append((eq, station_record(eq, eq_par, True)))
+        except Exception as e:  # noqa: BLE001
+            creation_failure(out, e, {"latlonalt_deg_m": [lat_d, lon_d, alt], "coords_kind": ckind, "parent": parent}, None, "create_station")
+        n0 = len(out.failures)
+        for j in range(n_ho if (pool or extras) else 1):
+            r, v, tkind = gen_target(rng, [float(c) for c in ref0["s"]], [float(c) for c in ref0["U"]])
+            src, src_rec = extras[0] if (extras and j < 2) else (sources[-1] if j == n_ho - 1 else rng.choice(sources[:-1] or sources))
+            others = [c for c in sources[:-1] + extras if c[0] is not src]
+            via = rng.sample(others, min(len(others), rng.choice([1, 1, 2]))) if (others and rng.random() < 0.3) else []
+            check_given_in(out, st, inp_s, a, f, lat, lon, alt, r, v, date, rng.choice([2, 3, 3, 4]), src, src_rec, rng.choice(SOURCE_FORMS), via, skind, tkind,
+                           pframe=pframe, by_name=rng.random() < 0.15)
+            if len(out.failures) > n0:
+                break
+        for e_st, _rec in extras:
+            drop_station(e_st)
         if wgs_done < 3:
             wgs_done += 1
             check_wgs84(out, st, inp_s, a, f, lat, lon, alt, date)
@@ -1157,7 +1308,11 @@ def _oracle(ctx, widened, out):
                     got = repr(e)
                 check_mask_value(out, got, taz, tel, x, "conv", akind, "given-at-" + entry.split("-")[0],
                                  {"okind": mgiven[0], "entry": entry, "parent": parent, "given": [list(mgiven[1]), list(mgiven[2])], "ops": [["Q", x, akind]]})
-        drop_station(st)
+        pool.append((st, dict(inp_s)))
+        if len(pool) > 3:
+            drop_station(pool.pop(0)[0])
+    for p_st, _rec in pool:
+        drop_station(p_st)
     # --- the station is where its coordinates say, whatever numeric kind they are given in
     for kind in WIDE_KINDS + NARROW_INT_KINDS + OTHER_KINDS:
         for _ in range(12 if big else 3):
@@ -1630,7 +1785,7 @@ def _cmp(out, family, what, inp, real, model_line, tols, angles=(), skip=()):
     return True
 
 
-def topo_tolerances(cart, sph, r, v):
+def topo_tolerances(cart, sph, r, v, extra=0.0):
     """absolute tolerances for the 6 cartesian + 6 spherical station-frame components (beyond vs compiled model), the indices not
     compared (exactly at the zenith theta and the angular rates are 0/0), and the quantities they were built from"""
     import numpy as np
@@ -1638,7 +1793,7 @@ def topo_tolerances(cart, sph, r, v):
     hz = max(math.hypot(cart[0], cart[1]), 1e-300)
     sp = float(np.linalg.norm(v))
     # position noise (cancellation r - s, inverse vs transpose); r - cart has the length of the station's own position vector
-    dl = 2e-8 + 4e-15 * float(np.linalg.norm(r)) + 4e-15 * max(0.0, float(np.linalg.norm(r)) + float(sph[0]) - 1.4e7)
+    dl = 2e-8 + 4e-15 * float(np.linalg.norm(r)) + 4e-15 * max(0.0, float(np.linalg.norm(r)) + float(sph[0]) - 1.4e7) + extra
     dv = 1e-15 + 4e-15 * sp
     cosel = hz / rg
     tol_el = 1e-12 + min(4e-16 / max(cosel, 1e-300), 5e-8) + dl / rg * 2
@@ -1672,6 +1827,7 @@ def correspondence(ctx):
     n_st = ctx.n(120, 2000)
     n_tg = ctx.n(14, 40)
     MEAS = [Range, Azimut, Elevation, Doppler]
+    last = {}           # parent frame -> (station, its coordinates as given, its record): the previous station created under that parent stays alive
     for k in range(n_st):
         lat_d, lon_d, alt, skind = gen_station(rng, k)
         ckind = "float-tuple" if rng.random() < 0.4 else rng.choice(WIDE_KINDS)
@@ -1734,7 +1890,36 @@ def correspondence(ctx):
                 add(req, lambda rep, val=val, i=dict(inp, measure=MEAS[ki].__name__, path_len=npath), t=tol, ki=ki:
                     _cmp(out, "meas", "measure value", i, [val], rep, [t], angles=(0,) if ki == 1 else ()))
                 out.count(key=req, kind="meas-" + MEAS[ki].__name__, path_len=npath)
-        drop_station(st)
+        # a state given in the frame of ANOTHER station under the same parent (the previous one, whatever its options; every other time the
+        # station itself or a second station at the same coordinates), changed directly to this station's frame: `stationToStation`
+        srcs = []
+        if pframe in last:
+            srcs.append(last[pframe] + ("other-station",))
+        if k % 2 == 0:
+            srcs.append((st, degs, inp_s, "same-station"))
+        twin = None
+        if k % 6 == 1:
+            twin = new_station(lat_d, lon_d, alt_d, kind=ckind, parent=parent)
+            srcs.append((twin, degs, dict(inp_s), "twin-station"))
+        for a_st, a_degs, a_inp, a_kind in srcs:
+            for _ in range(3):
+                r, v, tkind = gen_target(rng, spos, up)
+                pa = [float(c) for c in StateVector(r + v, date, "cartesian", pframe).copy(frame=a_st, form="cartesian")]
+                pa_sv = StateVector(pa, date, "cartesian", a_st)
+                cart = np.array(pa_sv.copy(frame=st, form="cartesian"))
+                sph = np.array(pa_sv.copy(frame=st, form="spherical"))
+                req = " ".join(["c11hand"] + a_degs + degs + [f2b(c) for c in pa])
+                tols, skip, *_ = topo_tolerances(cart, sph, r, v, extra=8e-15 * (float(np.linalg.norm(pa[:3])) + 6.4e6))
+                inp = dict(inp_s, given_in=dict(a_inp), state_in_that_frame=pa)
+                add(req, lambda rep, real=list(cart) + list(sph), i=inp, t=tols, sk=skip: _cmp(out, "hand", "state of another station's frame .copy(frame=station)", i, real, rep, t, angles=(7,), skip=sk))
+                out.count(key=req, kind="hand-" + a_kind, zenith_singular=bool(skip), target=tkind, station=skind)
+        if twin is not None:
+            drop_station(twin)
+        if pframe in last:
+            drop_station(last[pframe][0])
+        last[pframe] = (st, degs, dict(inp_s))
+    for l_st, _d, _i in last.values():
+        drop_station(l_st)
     # expand(m, rate) @ state
     for _ in range(ctx.n(200, 5000)):
         ang = [rng.uniform(-math.pi, math.pi) for _ in range(3)]
@@ -1930,7 +2115,7 @@ def correspondence(ctx):
     replies = core.Driver(ID).run(reqs)
     for req, fn, rep in zip(reqs, checks, replies):
         fn(rep)
-        if req.split()[0] in ("c11topo", "c11mask", "c11meas", "c11maskrun", "c11reg"):
+        if req.split()[0] in ("c11topo", "c11hand", "c11mask", "c11meas", "c11maskrun", "c11reg"):
             out.sample({"request": req[:100] + "…", "model": rep[:80]}, limit=3)
     out.notes.append(f"get_mask: {exact[1]} of {exact[0]} values bit-identical between numpy and the compiled model")
     out.notes.append(f"mask life: {agree[1]} of {agree[0]} replies of real station objects agree with the state machine")
@@ -1986,6 +2171,31 @@ def replay(failure):
                             ckind=ckind, fd_frame=inp.get("frame") if inp.get("frame") not in (None, "TOD", "CIRF") else None,
                             pframe=PARENT_NAME[inp.get("parent", "default")])
         drop_station(st)
+        out.failures = [x for x in out.failures if x["family"] == fam] or out.failures
+        return out
+    if isinstance(inp, dict) and "latlonalt_deg_m" in inp and "target_itrf" in inp and "given_in" in inp:
+        # a target handed over from the frame of another station: both stations (and those on the way) are created again
+        lat_d, lon_d, alt = inp["latlonalt_deg_m"]
+        ckind = inp.get("coords_kind", "float-tuple")
+        made = []
+
+        def again(rec):
+            stn = new_station(*rec["latlonalt_deg_m"], kind=rec.get("coords_kind", "float-tuple"), equatorial=bool(rec.get("equatorial", False)), **_options(rec))
+            made.append(stn)
+            return stn
+        try:
+            st = again(inp)
+            lat_d, lon_d, alt = st.c11_deg
+            inp_s = {k: inp[k] for k in ("latlonalt_deg_m", "coords_kind", "parent", "mask_given", "entry") if k in inp}
+            src_rec = {k: v for k, v in inp["given_in"].items() if k != "form"}
+            src = st if src_rec.get("same_object") else again(src_rec)
+            via = [(again(rec), rec) for rec in inp.get("via", [])]
+            t = [float(c) for c in inp["target_itrf"]]
+            check_given_in(out, st, inp_s, a, f, math.radians(lat_d), math.radians(lon_d), alt, t[:3], t[3:], date, int(inp.get("path_len", 3)), src, src_rec,
+                           inp["given_in"].get("form", "cartesian"), via, pframe=PARENT_NAME[inp.get("parent", "default")], by_name=bool(inp.get("by_name", False)))
+        finally:
+            for stn in made:
+                drop_station(stn)
         out.failures = [x for x in out.failures if x["family"] == fam] or out.failures
         return out
     if isinstance(inp, dict) and "latlonalt_deg_m" in inp and "target_itrf" in inp:
